@@ -519,6 +519,87 @@ theorem accepts_of_room (c : Cfg) (s : State) (h : Inv c s) (hl : LI c s) (hb : 
       (List.mem_range.2 hlt) b hk
     simp [this]
 
+/-! ### the finer room condition: what is actually waiting in the post-pipeline buffers -/
+
+def postLen (s : State) (j : Nat) : Nat := (s.banks[j]?.map (·.post.length)).getD 0
+
+/-- responses waiting in all post-pipeline buffers -/
+def postTotal (s : State) : Nat := (s.banks.map (·.post.length)).sum
+
+theorem postLen_other (c : Cfg) (s : State) (j0 j : Nat) (h : j ≠ j0) : postLen (finalizeAt c s j0).1 j = postLen s j := by
+  unfold finalizeAt postLen
+  cases hb : s.banks[j0]? with
+  | none => rfl
+  | some b => simp only; rw [List.getElem?_set_ne (Ne.symm h)]
+
+theorem finalizeAt_room' (c : Cfg) (s : State) (j : Nat) (h : Inv c s) (hl : LI c s)
+    (hroom : s.outBuf.length + postLen s j ≤ c.top) :
+    PostEmpty (finalizeAt c s j).1 j ∧ (finalizeAt c s j).1.outBuf.length ≤ s.outBuf.length + postLen s j := by
+  unfold finalizeAt
+  cases hbk : s.banks[j]? with
+  | none => exact ⟨fun b hb' => (by simp only at hb'; rw [hbk] at hb'; cases hb'), by simp⟩
+  | some b =>
+    have hpl : postLen s j = b.post.length := by simp [postLen, hbk]
+    have hlt : j < s.banks.length := (List.getElem?_eq_some_iff.1 hbk).1
+    rw [hpl] at hroom
+    constructor
+    · intro x hx
+      simp only at hx
+      rw [List.getElem?_set_self hlt] at hx
+      cases hx
+      exact finalizePost_all c b.post s.log s.outBuf s.resp (items_ok c s h hl j b hbk) hroom
+    · have := finalizePost_out_le c b.post s.log s.outBuf s.resp
+      simp only; omega
+
+theorem finalizeFrom_room' (c : Cfg) : ∀ (ks : List Nat) (s : State), ks.Nodup → Inv c s → LI c s →
+    s.outBuf.length + (ks.map (postLen s)).sum ≤ c.top → ∀ j ∈ ks, PostEmpty (finalizeFrom c ks s).1 j := by
+  intro ks
+  induction ks with
+  | nil => intro s _ _ _ _ j hj; simp at hj
+  | cons j0 ks ih =>
+    intro s hnd h hl hroom j hj
+    obtain ⟨hj0, hnd'⟩ := List.nodup_cons.1 hnd
+    simp only [List.map_cons, List.sum_cons] at hroom
+    obtain ⟨r1, r2⟩ := finalizeAt_room' c s j0 h hl (by omega)
+    simp only [finalizeFrom]
+    rw [finalizeAt_nofault c s j0 h hl]
+    simp only [Bool.false_eq_true, if_false]
+    have h' := finalizeAt_inv c s j0 h
+    have hl' := finalizeAt_LI c s j0 hl
+    have hsum : (ks.map (postLen (finalizeAt c s j0).1)).sum = (ks.map (postLen s)).sum := by
+      congr 1
+      apply List.map_congr_left
+      intro j hjm
+      exact postLen_other c s j0 j (fun e => hj0 (e ▸ hjm))
+    simp only [List.mem_cons] at hj
+    by_cases hjk : j ∈ ks
+    · exact ih _ hnd' h' hl' (by rw [hsum]; omega) j hjk
+    · rcases hj with rfl | hj
+      · exact finalizeFrom_postEmpty_keep c j ks _ r1
+      · exact absurd hj hjk
+
+theorem range_map_postLen (s : State) : (List.range s.banks.length).map (postLen s) = s.banks.map (·.post.length) := by
+  apply List.ext_getElem
+  · simp
+  · intro i h1 h2
+    simp only [List.length_map, List.length_range] at h1
+    simp [postLen, List.getElem?_eq_getElem h1]
+
+/-- the port accepts every bank's responses when the outgoing buffer has room for everything that is waiting -/
+theorem accepts_of_room' (c : Cfg) (s : State) (h : Inv c s) (hl : LI c s)
+    (hroom : s.outBuf.length + postTotal s ≤ c.top) (k : Nat) : accepts c s k = true := by
+  unfold accepts
+  cases hk : (finalize c s).1.banks[k]? with
+  | none => rfl
+  | some b =>
+    have hl1 : LI c (finalize c s).1 := (finalizeFrom_w c 0 _ s h hl).2.1
+    have hlt : k < s.banks.length := by
+      have := (List.getElem?_eq_some_iff.1 hk).1
+      rw [hl1.nb] at this; rw [hl.nb]; exact this
+    have := finalizeFrom_room' c (List.range s.banks.length) s List.nodup_range h hl
+      (by rw [range_map_postLen]; exact hroom) k (List.mem_range.2 hlt) b hk
+    simp [this]
+
 /-! ### nothing happens to the responses while the port is blocked -/
 
 theorem finalizePost_blocked (c : Cfg) (post : List Item) (log : List Req) (out resp : List Rsp)
@@ -645,5 +726,12 @@ theorem accepting_add_refusing (c : Cfg) (k : Nat) : ∀ (ops : List Op) (s : St
       split <;> omega
     | deliver k' a l d m => simp only [acceptingTicks, refusingTicks, countTicks]; exact ih _
     | out j => simp only [acceptingTicks, refusingTicks, countTicks]; exact ih _
+
+/-- ticks of `ops` (run from `s`) at whose start the outgoing port buffer is empty: the environment has retrieved
+every response sent so far -/
+def drainedTicks (c : Cfg) : State → List Op → Nat
+  | _, [] => 0
+  | s, .tick :: ops => (if s.outBuf.isEmpty then 1 else 0) + drainedTicks c (tick c s) ops
+  | s, op :: ops => drainedTicks c (step c s op) ops
 
 end C17
